@@ -195,6 +195,16 @@ func RunCheckToolCase(cs map[string]any, id int, seed int64, tool, tmp string) R
 	qpath := filepath.Join(dir, "quote")
 	os.WriteFile(qpath, qbytes, 0o600)
 	args := []string{"-in", qpath, "-inform", str("inform"), "-timeout=400ms", "-max_retry_delay=60ms"}
+	switch cs["retry"] { // the tool must end on its own and keep its exit code whatever these are
+	case "zeroDelay":
+		args[5] = "-max_retry_delay=0"
+	case "negativeDelay":
+		args[5] = "-max_retry_delay=-1s"
+	case "zeroTimeout":
+		args[4] = "-timeout=0"
+	case "negativeTimeout":
+		args[4] = "-timeout=-1s"
+	}
 	present, _ := cs["present"].(string)
 	switch present {
 	case "quiet":
@@ -292,6 +302,12 @@ func RunCheckToolCase(cs map[string]any, id int, seed int64, tool, tmp string) R
 			m := fv[field].match
 			setCfgBytes(m[:len(m)-1])
 		}
+	}
+	switch cs["cfgAny"] { // the config's allow-list for MR_TD
+	case "match":
+		cfg.Policy.TdQuoteBodyPolicy.AnyMrTd = [][]byte{gen.RandBytes(rng, 48), cp(b.MrTd)}
+	case "mismatch":
+		cfg.Policy.TdQuoteBodyPolicy.AnyMrTd = [][]byte{gen.RandBytes(rng, 48), gen.RandBytes(rng, 48)}
 	}
 	hexs := func(v []byte) string { return hex.EncodeToString(v) }
 	rtHex := func(r [][]byte) string {
@@ -453,6 +469,7 @@ func RunCheckToolCase(cs map[string]any, id int, seed int64, tool, tmp string) R
 	}
 	var events []Event
 	for vi, qb := range variants {
+		started := time.Now()
 		qbytes := qb
 		os.WriteFile(qpath, qbytes, 0o600)
 		cmd := exec.Command(tool, args...)
@@ -489,7 +506,7 @@ func RunCheckToolCase(cs map[string]any, id int, seed int64, tool, tmp string) R
 		}
 
 		events = append(events, Event{"ev": "Call", "case": id, "input": cs, "variant": vi, "args": strings.Join(args[2:], " ")},
-			Event{"ev": "Return", "exit": exit, "crash": crash, "silent": len(se) == 0, "fatalLine": strings.Contains(stderr.String(), "FATAL:"), "stderrEmpty": stderr.Len() == 0, "stderr": tail, "result": fmt.Sprintf("exit%d", exit)})
+			Event{"ev": "Return", "exit": exit, "crash": crash, "elapsedMs": int(time.Since(started) / time.Millisecond), "silent": len(se) == 0, "fatalLine": strings.Contains(stderr.String(), "FATAL:"), "stderrEmpty": stderr.Len() == 0, "stderr": tail, "result": fmt.Sprintf("exit%d", exit)})
 	}
 	return Result{ID: id, Events: events}
 }
